@@ -491,14 +491,14 @@ class DocumentMapper:
         Returns (-1, 0) if not found.
         """
         # 1. Exact Match
-        start_idx = self.full_text.find(target_text)
+        start_idx = self._find_on_document_text(self.full_text, target_text)
         if start_idx != -1:
             return start_idx, len(target_text)
 
         # 2. Smart Quote Normalization
         norm_full = self._replace_smart_quotes(self.full_text)
         norm_target = self._replace_smart_quotes(target_text)
-        start_idx = norm_full.find(norm_target)
+        start_idx = self._find_on_document_text(norm_full, norm_target)
         if start_idx != -1:
             return start_idx, len(target_text)
 
@@ -512,20 +512,36 @@ class DocumentMapper:
         # We can't use index from stripped_full directly on full_text,
         # but if it matches, it suggests we should try a fuzzy approach or fallback
         # This fallback is primarily for Header matching (#)
-        if stripped_target in self.full_text:
-            start_idx = self.full_text.find(stripped_target)
+        start_idx = self._find_on_document_text(self.full_text, stripped_target)
+        if start_idx != -1:
             return start_idx, len(stripped_target)
 
         # 4. Fuzzy Regex Match
         try:
             pattern = self._make_fuzzy_regex(target_text)
-            match = re.search(pattern, self.full_text)
-            if match:
-                return match.start(), match.end() - match.start()
+            for match in re.finditer(pattern, self.full_text):
+                if self._touches_document_text(match.start(), match.end()):
+                    return match.start(), match.end() - match.start()
         except re.error:
             pass
 
         return -1, 0
+
+    def _touches_document_text(self, start_idx: int, end_idx: int) -> bool:
+        return any(s.run is not None and s.end > start_idx and s.start < end_idx for s in self.spans)
+
+    def _find_on_document_text(self, haystack: str, needle: str) -> int:
+        """
+        First occurrence of needle in haystack (full_text, or a same-length variant of it) that touches text of the
+        document itself. The projection also contains generated text (comment and change metadata, style markers,
+        paragraph separators); an occurrence lying wholly inside it resolves to no run and cannot be edited.
+        """
+        idx = haystack.find(needle)
+        while idx != -1:
+            if self._touches_document_text(idx, idx + len(needle)):
+                return idx
+            idx = haystack.find(needle, idx + 1)
+        return -1
 
     def find_target_runs(self, target_text: str) -> List[Run]:
         start_idx, length = self.find_match_index(target_text)
